@@ -34,7 +34,7 @@ pub fn deco_strings() -> BoxedStrategy<DecoStrings> {
     };
     let hdr_unit = prop_oneof![3 => Just("#"), 1 => Just("="), 2 => Just("§"), 2 => Just("〖"), 1 => Just("•")].prop_map(|s| s.to_string());
     let hdr_tail = prop_oneof![3 => Just(" "), 1 => Just(""), 1 => Just("） "), 1 => Just("§ ")].prop_map(|s| s.to_string());
-    let ol_tail = prop_oneof![3 => Just(". "), 1 => Just(") "), 2 => Just("） "), 2 => Just("§ "), 1 => Just("•")].prop_map(|s| s.to_string());
+    let ol_tail = (prop_oneof![3 => Just(". "), 1 => Just(") "), 2 => Just("） "), 2 => Just("§ "), 1 => Just("•")], prop_oneof![5 => Just(0u8), 2 => Just(1u8), 1 => Just(2u8), 1 => Just(3u8), 1 => Just(4u8)]).prop_map(|(s, k)| (s.to_string(), k));
     (
         (affix(), affix()),
         (affix(), affix()),
@@ -45,7 +45,7 @@ pub fn deco_strings() -> BoxedStrategy<DecoStrings> {
         (affix(), affix()),
         (hdr_unit, hdr_tail, prefix(), prefix(), ol_tail),
     )
-        .prop_map(|(link, em, strong, strike, code, img, sup, (hdr_unit, hdr_tail, quote, ul, ol_tail))| DecoStrings {
+        .prop_map(|(link, em, strong, strike, code, img, sup, (hdr_unit, hdr_tail, quote, ul, (ol_tail, ol_style)))| DecoStrings {
             link,
             em,
             strong,
@@ -58,6 +58,7 @@ pub fn deco_strings() -> BoxedStrategy<DecoStrings> {
             quote,
             ul,
             ol_tail,
+            ol_style,
         })
         .boxed()
 }
@@ -122,8 +123,8 @@ pub fn check_compose(case: &DecoWrapCase, st: &mut Stats) -> Result<(), String> 
         Wrap::Ol(start) => {
             let s = start.unwrap_or(1);
             let nums: Vec<i64> = (0..n as i64).map(|k| s + k).collect();
-            // the library sizes the markers from the first and last number
-            let width = nums.iter().map(|k| dw(&format!("{}{}", k, ds.ol_tail))).max().unwrap();
+            // all markers of a list are padded to the widest one
+            let width = nums.iter().map(|k| dw(&ds.ol_marker(*k))).max().unwrap();
             (
                 format!(
                     "<ol{}>{}</ol>",
@@ -132,7 +133,7 @@ pub fn check_compose(case: &DecoWrapCase, st: &mut Stats) -> Result<(), String> 
                 ),
                 nums.iter()
                     .map(|k| {
-                        let p = format!("{}{}", k, ds.ol_tail);
+                        let p = ds.ol_marker(*k);
                         let pad = width - dw(&p);
                         (format!("{}{}", p, " ".repeat(pad)), " ".repeat(width))
                     })
